@@ -21,6 +21,11 @@ for c in "$id" "$@"; do
   rc=$(echo "$r" | sed -n 's/^== [A-Z0-9]* rc=\([0-9]*\).*/\1/p')
   bucket=$(echo "$r" | grep -m1 "bucket=" | sed 's/.*bucket=\([^ ]*\).*/\1/')
   [ -z "$rc" ] && rc="patch-failed"
+  # pin the first failing case as a committed regression input of that check (it passes on the unchanged tree)
+  rp=$(echo "$r" | grep -m1 '^VIOLATION' | sed 's/.*replay=//')
+  if [ "$rc" = "1" ] && [ -f "$rp" ] && [ "${PIN:-1}" = "1" ]; then
+    mkdir -p "regress/$c"; cp "$rp" "regress/$c/seeded-$id-$name.json"
+  fi
   res="$res $c:rc=$rc:$bucket"
 done
 echo "$id/$name tests=[$tests] demo_with=$with demo_without=$without checks:$res"
